@@ -50,6 +50,11 @@ CHECKS = {
                 text='Narrow slice (stated): binary graph serialisation only. For every degree sequence in the bound and all symbolic index values the serialised buffer has the documented header and deserialises to the same graph; for arbitrary buffers of 0..N words with symbolic header fields the constructor either aborts or performs only in-bounds accesses and accepts only self-consistent buffers.',
                 note='Trusted: clang-14 IR, irsym executor (validated by concrete co-execution vs ASan native build), z3 5.1.0. One defect found and fixed (out-of-bounds read for inconsistent counts). NOT covered: XmlScanner, MeshFileReader/Writer, PropertyMap, chart/partition parsers (std::string / iostream code has no IR; mutations there are not detected).',
                 ref='3/C11'),
+    'C13': dict(cat='other', engine='E2',
+                technique='bounded symbolic execution of the real VectorMirror / TupleMirror / Gate templates on symbolic vectors, buffers and scaling factors for every ordered index list within the bound; gather/scatter, frequency and emulated-synchronisation identities decided by z3',
+                text='Partial (stated): process-local building blocks only. For every ordered index list on vectors of length <= 3 (thorough 4), scalar and blocked, with buffer offsets: gather copies exactly the mirrored entries, scatter_axpy adds alpha*buffer exactly there; TupleMirror (2, 3 components) uses consistent buffer ranges; Gate::compile frequencies are 1/(1+#mirrors containing the dof) for dofs shared by up to 3 (4) neighbours, weighted dot and from_1_to_0 follow; an emulated sync of three patches around a cross point sums each shared dof exactly once.',
+                note='Trusted: SymReal, z3 5.1.0. Single process with the serial Dist::Comm: the real message exchange (SynchVectorTicket, MPI), Global::Vector/Matrix/Filter/Transfer on several ranks, Muxer/Splitter, AlgDofParti and result equality between different partitionings of a real mesh are outside.',
+                ref='3/C13'),
     'C14': dict(cat='other', engine='table dump + z3 LRA',
                 technique='rule tables produced by executing the real factory code for every advertised name; z3 (exact LRA) searches a polynomial of degree <= nominal degree that is integrated wrongly',
                 text='Weak fit, stated: the cubature code has no input besides the rule name, so it is executed completely for every advertised name (incl. refine/auto-degree prefixes, aliases); the symbolic part is the integrand: z3 decides in exact rational arithmetic that no polynomial of total degree <= nominal degree (coefficients in [-1,1]) has an integration error above 1e-11*sum|w|; unknown/out-of-range names must be refused.',
